@@ -19,6 +19,7 @@
 //!   ERRS <n> { ; X <kind> <nspans> {<s> <e>}* }*
 //!   PANIC <msg>
 //!   SEL { r<k>=x<hex of src[name_span]>|! }* { s<id>=x<hex>|! }* { e<k>.<j>=x<hex>|! }*      (`!` = span does not index src)
+//!   WC { <k>:<0|1> }*          (after ERRS, when w= is given) whether the regex crate compiles the k-th written regex under f=
 //!   RX { <k>:<neq>:<ndiff>[:x<first differing battery string>:<impl>:<written>] | <k>:IMPLERR | <k>:WRITTENERR }*
 //!   LX { x<input>=<tok>:<start>:<len>,… [E<start>] }*      lexemes of the implementation
 //!   RL { x<input>=… }*                                     lexemes of the reference lexer (from w=, wn=, f=)
@@ -204,6 +205,15 @@ fn run(line: &str) -> String {
                 }
             }
             write!(o, " | SEL{}", s).unwrap();
+            if !w.is_empty() {
+                // does the regex crate accept what the generator meant, under the flags in force?
+                o.push_str(" | WC");
+                for (k, x) in w.iter().enumerate() {
+                    if x != "-" {
+                        write!(o, " {}:{}", k, compile(&uh(x), &force).is_ok() as u8).unwrap();
+                    }
+                }
+            }
             return o;
         }
         Ok(Ok(d)) => d,
